@@ -342,6 +342,11 @@ def framing_rules(ctx, repo, rule_prefix="R-LOWER/framing"):
     idx = next((n.id for n in ast.walk(lp.test) if isinstance(n, ast.Name) and n.id != p0 and
                 any(isinstance(x, ast.Name) and x.id == n.id and isinstance(x.ctx, ast.Store) for x in ast.walk(lp))), None)
     if idx is None:
+        # `while True:` with the guard as the first break: the offset is the name returned after the scan
+        after = [n.value.id for n in walk_no_nested(fn) if isinstance(n, ast.Return) and isinstance(n.value, ast.Name)
+                 and not any(n is x for x in ast.walk(lp))]
+        idx = next((a for a in after if any(isinstance(x, ast.Name) and x.id == a and isinstance(x.ctx, ast.Store) for x in ast.walk(lp))), None)
+    if idx is None:
         ctx.undecided(rule_prefix, construct, where, "scan offset not recognised", key="loop")
         return
     I, S, L = sym.S("int:I"), sym.S(p0), sym.S("int:L")
@@ -353,7 +358,17 @@ def framing_rules(ctx, repo, rule_prefix="R-LOWER/framing"):
                 and (t[1] == ("attr", ("name", "int"), "from_bytes") or "integer_from_bytes" in sym.show(t[1])):
             return L
         return None
-    paths = sym.Interp(fold=lambda e: repo.fold(m, e), hook=hook).loop_body(lp, {idx: I, p0: S})
+    itp = sym.Interp(fold=lambda e: repo.fold(m, e), hook=hook)
+    # names bound before the loop (stream_length = len(stream) ...) keep their meaning inside it
+    pre = []
+    for st_ in strip_doc(fn.body):
+        if st_ is lp or any(x is lp for x in ast.walk(st_)):
+            break
+        pre.append(st_)
+    pre_paths = [q for q in itp.run(pre, sym.PathState({p0: S}, [], [])) if q.term == "fall"]
+    st0 = pre_paths[0] if len(pre_paths) == 1 else sym.PathState({}, [], [])
+    st0.conds, st0.effects = [], []
+    paths = itp.loop_body(lp, {idx: I, p0: S}, st0)
     rets = [ast.unparse(n.value) for n in walk_no_nested(fn) if isinstance(n, ast.Return) and n.value is not None and
             not any(n is x for x in ast.walk(lp))]
     ctx.decide(rets == [idx], rule_prefix, construct, where, "after the scan the offset of the first incomplete message is returned",
@@ -363,6 +378,12 @@ def framing_rules(ctx, repo, rule_prefix="R-LOWER/framing"):
         short = [tv for c, tv in p_.conds if isinstance(c, tuple) and c[0] == "cmp" and c[1] == "Lt" and c[2] == L and c[3] == 20]
         part = [tv for c, tv in p_.conds if isinstance(c, tuple) and c[0] == "cmp" and c[1] == "Lt" and c[3] == L
                 and c[2] == sym.add(LEN, I, -1)]
+        hdr_short = [tv for c, tv in p_.conds if isinstance(c, tuple) and c[0] == "cmp" and c[1] == "Lt" and c[2] == sym.add(LEN, I, -1) and c[3] == 20]
+        if hdr_short == [True] and not short:
+            ctx.decide(p_.term == "break" and p_.get(idx) == I, rule_prefix + "-partial", construct, f"{m.rel}:{lp.lineno}",
+                       "fewer than 20 buffered bytes end the scan with the offset unchanged",
+                       f"with fewer than 20 bytes left the iteration ends with `{p_.term}` and offset `{sym.show(p_.get(idx))}`", key="partial_header")
+            continue
         if short == [True]:
             n_mal += 1
             ok = p_.term == "return" and p_.value == LEN
